@@ -18,6 +18,7 @@ import (
 	"fmt"
 	"os"
 	"path/filepath"
+	"regexp"
 	"runtime"
 	"sort"
 	"strings"
@@ -64,17 +65,17 @@ func main() {
 	if cfg.Replay != "" {
 		specs = replaySpecs(cfg)
 	} else {
-		nScen := cfg.N(28, 160)
-		seqs := cfg.N(10, 24)
+		nScen := cfg.N(64, 160)
+		seqs := cfg.N(12, 24)
 		for i := 0; i < nScen; i++ {
 			specs = append(specs, batchSpec{Prop: cfg.Prop, Tier: cfg.Tier, Seed: cfg.Seed, Batch: i, Mode: "scenario", Build: "plain",
 				Seqs: seqs, Badger: i%4 == 0, Hooks: i%3 == 1, Only: -1})
 		}
 		if cfg.BinRace != "" {
-			nRace := cfg.N(10, 48)
+			nRace := cfg.N(16, 48)
 			for i := 0; i < nRace; i++ {
 				specs = append(specs, batchSpec{Prop: cfg.Prop, Tier: cfg.Tier, Seed: cfg.Seed, Batch: 1000 + i, Mode: "scenario", Build: "race",
-					Seqs: cfg.N(5, 12), Badger: i%5 == 0, Hooks: i%2 == 1, Only: -1})
+					Seqs: cfg.N(6, 12), Badger: i%5 == 0, Hooks: i%2 == 1, Only: -1})
 			}
 		}
 		nFuzz := cfg.N(8, 32)
@@ -112,10 +113,18 @@ func main() {
 			s := cur[i]
 			rep.Seen("builds_run", s.Build)
 			rep.Count("children_run", 1)
+			var merged *vlib.Batch
 			if s.Build == "race" {
-				rep.MergeChildNoDistinct(c)
+				merged = rep.MergeChildNoDistinct(c)
 			} else {
-				rep.MergeChild(c)
+				merged = rep.MergeChild(c)
+			}
+			if merged != nil {
+				if t, _ := merged.Extra["avoid_after_wedge"].(string); t != "" && len(s.Avoid) < 12 && cfg.Replay == "" {
+					n := s
+					n.Avoid = append(append([]string{}, s.Avoid...), t)
+					retry = append(retry, n)
+				}
 			}
 			for _, rr := range c.Races {
 				switch {
@@ -124,6 +133,12 @@ func main() {
 				case rr.InScope("DatabaseAPI).processQuery", "DatabaseAPI).processSub", "DatabaseAPI).cancelQuery", "DatabaseAPI).cancelSub",
 					"DatabaseAPI).handleCancel", "DatabaseAPI).registerSub", "DatabaseAPI).handleQsub", "DatabaseAPI).handleSub", "DatabaseAPI).handleQuery"):
 					rep.Violation("C13:race:"+rr.Signature(), "data race on the API's per-connection state (queries/subs) reported by the race detector",
+						map[string]any{"report": rr.Text, "batch": s})
+				case raceInHandler(rr, "DatabaseAPI).handleInsert", "DatabaseAPI).handlePut", "DatabaseAPI).handleDelete", "DatabaseAPI).handleGet", "api.MarshalRecord"):
+					// a handler of the API touches a record while another handler
+					// changes it: observed to damage replies (a reader gets a cut-off
+					// document and the API sends the record without its content)
+					rep.Violation("C13:race:record:"+rr.Signature(), "data race between API request handlers on a database record (a request changes the record while another one reads or changes it)",
 						map[string]any{"report": rr.Text, "batch": s})
 				default:
 					rep.Seen("race_diagnostics", rr.Signature())
@@ -180,6 +195,29 @@ func main() {
 		fmt.Println("h_dbapi: cannot write result:", err)
 		os.Exit(2)
 	}
+}
+
+var funcN = regexp.MustCompile(`(\.func\d+)+(\.\d+)*$`)
+
+func stripFuncN(fn string) string { return funcN.ReplaceAllString(fn, "") }
+
+// raceInHandler reports whether both access stacks of a race report run through the
+// database API (one of the given handler functions each).
+func raceInHandler(rr vlib.RaceReport, fns ...string) bool {
+	if len(rr.Stacks) < 2 {
+		return false
+	}
+	in := func(st []string) bool {
+		for _, f := range st {
+			for _, fn := range fns {
+				if strings.Contains(f, fn) {
+					return true
+				}
+			}
+		}
+		return false
+	}
+	return in(rr.Stacks[0]) && in(rr.Stacks[1])
 }
 
 func firstLines(s string, n int) string {
@@ -291,6 +329,7 @@ func analyseDeath(c *vlib.ChildResult) death {
 				blk = blk[:e]
 			}
 			d.stack = clip(blk, 3500)
+			inner := ""
 			for _, ln := range strings.Split(blk, "\n") {
 				if ln == "" || ln[0] == '\t' || strings.HasPrefix(ln, "goroutine ") || strings.HasPrefix(ln, "created by") {
 					continue
@@ -299,27 +338,21 @@ func analyseDeath(c *vlib.ChildResult) death {
 				if i := strings.LastIndex(fn, "("); i > 0 {
 					fn = fn[:i]
 				}
-				if strings.HasPrefix(fn, "runtime.") || strings.HasPrefix(fn, "panic") || strings.HasPrefix(fn, "reflect.") && d.site != "" {
+				if strings.HasPrefix(fn, "runtime.") || strings.HasPrefix(fn, "panic") || strings.Contains(fn, "verifharness") {
 					continue
 				}
-				if d.site == "" && (strings.Contains(fn, "safing/portbase") || strings.Contains(fn, "reflect.") || strings.Contains(fn, "tidwall")) && !strings.Contains(fn, "verifharness") {
+				fn = stripFuncN(fn)
+				if inner == "" {
+					inner = fn
+				}
+				if d.site == "" && strings.Contains(fn, "safing/portbase") {
 					d.site = strings.TrimPrefix(fn, "github.com/safing/portbase/")
+					if inner != fn {
+						d.site = inner + "<" + d.site
+					}
 				}
 				if d.handler == "" && strings.Contains(fn, apiRecv) {
 					d.handler = fn[strings.Index(fn, apiRecv)+len(apiRecv):]
-				}
-			}
-		}
-		// the site should name portbase code: prefer the first portbase frame
-		if d.stack != "" && !strings.Contains(d.site, "/") {
-			for _, ln := range strings.Split(d.stack, "\n") {
-				if strings.Contains(ln, "safing/portbase") && ln[0] != '\t' && !strings.HasPrefix(ln, "created by") {
-					fn := ln
-					if i := strings.LastIndex(fn, "("); i > 0 {
-						fn = fn[:i]
-					}
-					d.site = strings.TrimPrefix(fn, "github.com/safing/portbase/") + "<" + d.site
-					break
 				}
 			}
 		}
@@ -360,7 +393,9 @@ func analyseDeath(c *vlib.ChildResult) death {
 					continue
 				}
 			}
-			if l.tag != "" {
+			if strings.HasPrefix(l.tag, "fuzz/") {
+				tagset["fuzzclass/"+cl] = true
+			} else if l.tag != "" {
 				tagset[l.tag] = true
 			}
 			if len(d.inflightText) < 8 {
@@ -376,7 +411,7 @@ func analyseDeath(c *vlib.ChildResult) death {
 		pick(false)
 	}
 	for t := range tagset {
-		if !strings.HasPrefix(t, "fuzz/") && !strings.HasPrefix(t, "cancel/") {
+		if !strings.HasPrefix(t, "cancel/") {
 			d.tags = append(d.tags, t)
 		}
 	}
@@ -435,9 +470,9 @@ func childMain(dir string) {
 		fmt.Println("bad spec:", err)
 		os.Exit(3)
 	}
-	e := &env{spec: sp, dir: dir, b: vlib.NewBatch(), model: map[string]*modelRec{}, waitLim: 40 * time.Second}
+	e := &env{spec: sp, dir: dir, b: vlib.NewBatch(), model: map[string]*modelRec{}, waitLim: 60 * time.Second, earlyLim: 5 * time.Second}
 	if sp.Build == "race" {
-		e.waitLim = 120 * time.Second
+		e.waitLim, e.earlyLim = 150*time.Second, 12*time.Second
 	}
 	var err error
 	e.journal, err = os.OpenFile(filepath.Join(dir, "journal"), os.O_CREATE|os.O_WRONLY|os.O_APPEND, 0o644)
@@ -459,7 +494,7 @@ func childMain(dir string) {
 	}
 	switch sp.Mode {
 	case "fuzz":
-		runFuzz(e, vlib.NewRand(sp.Seed, "C13/fuzz", uint64(sp.Batch)), sp.FuzzN)
+		runFuzz(e, vlib.NewRand(sp.Seed, "C13/fuzz", uint64(sp.Batch)), sp.FuzzN, avoid)
 	case "replay-msgs":
 		c := newClient(e, 0)
 		f := &fuzzRun{e: e, c: c}
